@@ -7,6 +7,10 @@ TECH = "Lean 4 proof (induction over histories / structural induction / omega) +
 CLAIMS = {
  "C01": ("Lean 4 theorem C01_no_double_lease: in every state reachable by any finite history of grants (any clients, requested addresses, pools changing per message, lease bounds), clock advances and restarts, at every instant no address has two different clients with unexpired leases told to them; by the invariant 'an unexpired belief is backed by the stored row', preserved by every allowed outcome of select_address (SQL ties, hash order and the second clock read are nondeterministic in the model). Tied to pool.rs by extraction of the SQL comparison operators/ORDER BY clauses and by differential histories against the real Pool (allowed-outcome membership + table equality after every op) with the no-double-lease predicate evaluated on the implementation's replies.",
          "Trusted: Lean kernel; SQLite as a finite map with INSERT OR REPLACE / ORDER BY semantics; packets handled one at a time (tokio mutex outside the model); clock monotone; harness owns the clock by overriding clock_gettime."),
+ "C08": ("Lean 4 theorems: C08_subnet_v4/_v6 (for every prefix length and every written address, host bits set or not, containment = equality of the top len bits; via a bit-level lemma about and-ing with the netmask), C08_mapped_client (IPv4 clients seen as ::ffff:a.b.c.d), C08_first_match_decides / C08_no_match_refused / C08_granted_iff (granted iff the first matching rule has the permission, for every rule list), C08_rule_conditions, C08_http_arms_guarded (every arm of the HTTP router, regenerated from serve_request, is behind its documented permission) and C08_dns_acl_before_everything (statement order of the DNS entry point). Correspondence: acl::require_permission on generated rule lists x clients at every prefix boundary, judged by the model and by an independent first-match specification.",
+         "Trusted: Lean kernel; extract.py for the HTTP match arms and the DNS handler's statement order (these need live sockets to execute, so they are tied by translation, not executed); nix/NetAddr address classification. The v4 client against ::ffff:a.b.c.d/(96+n) prefix rule is covered by the correspondence only (no theorem yet)."),
+ "C20": ("Lean 4 theorems C20_gauges (for every store incl. the empty one the SQL of get_pool_metrics - comparison operators, COALESCE and column order regenerated from the source - returns (|expiry>now|, |expiry<=now|) in the order (active, expired)) and C20_gauges_partition. The listing is modelled byte for byte (leases_json: decimal/hex/dotted-quad printers, JSON string escaper) and tied to http::leases_json by exact output equality on tables whose client ids and host names are drawn from all byte strings; a strict RFC 8259 parser (independent reading) is the oracle for validity and for 'one entry per lease with that lease's fields'.",
+         "Trusted: as C01; String::from_utf8_lossy (std). The listing half is currently decided by correspondence + oracle; the denotation theorem for the renderer (Denotes (render rows) ...) is not yet proved - stated in DESIGN.md."),
  "C09": ("Lean 4 theorems over the same store model: C09_keeps_address (a client holding an unexpired lease inside the serving pool gets an address it holds there, the named one if it names one it holds), C09_refusal_only_when_exhausted (NoAssignableAddress implies every pool address is held unexpired by another client), C09_ack_after_offer (after an offer of x, whatever other clients do and however time passes before expiry, a request naming x from any pool containing x yields x). Correspondence as C01, with the C09 predicates evaluated on the implementation's observations.",
          "As C01. The theorems are about select_address/allocate_address; the mapping DISCOVER/REQUEST -> (client id, requested address) is covered by the dhcp-level correspondence (C13)."),
  "C10": ("Lean 4 theorems: C10_bounds (for every proposed duration the advertised lease lies in [min,max]), C10_record (the row written starts at the clock read after the request, lasts exactly the advertised time and so never expires before t+L), C10_start_le_expiry (invariant over all histories that discharges the u32 subtraction), C10_offer_and_ack_carry_lease_time (every reply of handle_pkt, OFFER and ACK alike, carries option 51 = the granted lease within the default bounds, equal to the recorded duration) and the extracted defaults 300/86400. Tied to the code by pool histories (allocate_address) and by packet histories through dhcp::handle_pkt on configurations loaded by the real loader, with the C10 predicates evaluated on the implementation's replies and rows.",
